@@ -86,13 +86,15 @@ def _db_for(P, S, scheme, cfg):
     lens = [1, 3, 4]
     if scheme == "CGKO06.SSE1":
         lens = [1, 2]
+    if scheme == "DP17.Pi":
+        lens = [2, 5, 9]          # a list that spans several chunks when locality > 1
     lim = cfg.get("param_l") if scheme in ("CGKO06.SSE1", "CGKO06.SSE2") else None
     kws = []
     for k in PL.KEYWORDS:
         k = k[:lim] if isinstance(lim, int) and lim > 0 else k
         if k and k not in kws:
             kws.append(k)
-    pool = [(((j + 1) * 37 + 11) % (256 ** size - 1) + 1).to_bytes(size, "big") for j in range(8)]
+    pool = [(((j + 1) * 37 + 11) % (256 ** size - 1) + 1).to_bytes(size, "big") for j in range(16)]
     if scheme == "CGKO06.SSE2":
         n = cfg.get("param_n")
         cap = n if (isinstance(n, int) and not isinstance(n, bool) and n >= 1) else 4
